@@ -1,11 +1,12 @@
 CONSTANTS
 Limit = 4
 MaxRecs = 1
-MaxChunks = 3
+MaxChunks = 2
 Mutant = 0
 Small = 0
 Encs = {"gzip", "identity", ""}
 Servers = {TRUE, FALSE}
+HaveDecs = {TRUE, FALSE}
 INIT Init
 NEXT Next
 INVARIANT I_Ref
